@@ -40,6 +40,9 @@ MIN_REACH = {
     "check_bad_calls": {"quick": 40, "thorough": 800},
     "unwritable_results": {"quick": 40, "thorough": 800},
     "resows": {"quick": 40, "thorough": 800},
+    "failed_grows_with_workers_inside_the_batch": {"quick": 15, "thorough": 150},
+    "crops_whose_path_contains_pattern_characters": {"quick": 20, "thorough": 200},
+    "reloads_through_load_crops": {"quick": 10, "thorough": 100},
 }
 TIME_BUDGET = {"quick": 300, "thorough": 3000}
 
@@ -124,8 +127,16 @@ def run_case(ctx, case):
     import xyzpy
     rng = ctx.rng("hist", case["hseed"])
     w = _workload(case)
-    tmp = ctx.mkdtemp("crop")
+    root = tmp = ctx.mkdtemp("crop")
     name = "c8"
+    if case["hseed"] % 5 == 2:
+        # the directory (or the crop's name) contains characters that are special in file-name patterns
+        tmp = os.path.join(root, "runs [1] x*y")
+        os.makedirs(tmp)
+        ctx.count("crops_whose_path_contains_pattern_characters")
+    elif case["hseed"] % 5 == 3:
+        name = "c8[a-z]?"
+        ctx.count("crops_whose_path_contains_pattern_characters")
     logfile = os.path.join(tmp, "calls.log")
     ctl = os.path.join(tmp, "ctl.json")
     probe.write_ctl(ctl)
@@ -156,7 +167,7 @@ def run_case(ctx, case):
         ctx.violation(case, "sow raised %r" % (e,), dict(sig, step="sow", **exc_sig(e)))
         if case.get("default_parent") and "cwd0" in dir():
             os.chdir(cwd0)
-        ctx.rmtree(tmp)
+        ctx.rmtree(root)
         return
     files = cropkit.batch_files(tmp, name) if os.path.isdir(cropkit.crop_dir(tmp, name)) else {}
     if not files:
@@ -166,7 +177,7 @@ def run_case(ctx, case):
         if case.get("default_parent"):
             os.chdir(cwd0)
             ctx.rmtree(elsewhere)
-        ctx.rmtree(tmp)
+        ctx.rmtree(root)
         return
     B = len(files)
     batch_settings = {i: [probe.canon(kw) for kw in cropkit.read_pickle(p)] for i, p in files.items()}
@@ -237,7 +248,12 @@ def run_case(ctx, case):
         try:
             with quiet():
                 if op == "reload":
-                    if rng.random() < 0.5:
+                    r_ = rng.random()
+                    if r_ < 0.2:
+                        # found by looking for crops in that directory (from wherever the program happens to be)
+                        crop = xyzpy.load_crops(tmp)[name]
+                        ctx.count("reloads_through_load_crops")
+                    elif r_ < 0.6:
                         crop = xyzpy.Crop(name=name, parent_dir=tmp)
                     else:
                         # re-created by the same constructor call (re-running the script that made it)
@@ -277,7 +293,23 @@ def run_case(ctx, case):
                     ctx.count("failed_grows_%s" % ("iteration_protocol_exception" if fail_exc.startswith("Stop") else "ordinary_exception"))
                     ctx.count("failed_grows")
                     try:
-                        crop.grow(ids)
+                        if rng.random() < 0.3:
+                            # each batch grown by the module-level grow() with workers INSIDE the batch (what an array job
+                            # generated with num_workers= runs): a failing setting must fail the batch just the same
+                            ctx.count("failed_grows_with_workers_inside_the_batch")
+                            # (how the pool reports the failure is the pool's business - an exotic exception type can take
+                            #  a worker down with it -: any exception will do, as long as the batch stays unfinished)
+                            expect_exc = "any"
+                            try:
+                                for i_ in ids:
+                                    xyzpy.grow(i_, crop=crop, num_workers=2, verbosity=0)
+                            finally:
+                                # settings of the failed batch may still be running in the other worker: let them finish
+                                # before the call log is read
+                                from joblib.externals.loky import get_reusable_executor
+                                get_reusable_executor().shutdown(wait=True)
+                        else:
+                            crop.grow(ids)
                     finally:
                         probe.write_ctl(ctl)
                 elif op == "grow_unpicklable":
@@ -343,7 +375,7 @@ def run_case(ctx, case):
                 os.environ.pop(mpi_var, None)
         log_off = probe.read_log(logfile, log_off)[1]
         done_hist.append(op if not ids else "%s%s" % (op, ids))
-        if err is not None and expect_exc == "unpicklable":
+        if err is not None and expect_exc in ("unpicklable", "any"):
             pass            # any exception from the failed write is fine
         elif err is not None and not (expect_exc and _is_injected(err)):
             ctx.violation(dict(case, at=list(done_hist)), "%s raised %r" % (op, err), dict(sig, oracle="no-exception", op=op, **exc_sig(err)))
@@ -370,4 +402,4 @@ def run_case(ctx, case):
     if case.get("default_parent"):
         os.chdir(cwd0)
         ctx.rmtree(elsewhere)
-    ctx.rmtree(tmp)
+    ctx.rmtree(root)
